@@ -10,7 +10,7 @@ PER_FILE = 60
 CASE_TIMEOUT = 20
 RULE = ('a case = a publication history (1-8 partial float series over 6 or 12-20 observation dates, stamps drawn from 5 days, '
         'values repeating / reverting / NaN, several versions sharing a stamp, dates that first appear late), merged in order with '
-        'bi_merge(store, Bi(series, stamp)), then read with bi_read at every time before / between / on / after the stamps and with '
+        'bi_merge(store, Bi(series, stamp)) - the five stamps are consecutive days in 2021, or lie in 2100-2105 (after the machine clock), or a mix of both - then read with bi_read at every time before / between / on / after the stamps and with '
         'asof=None, what in {-1, 0}; optionally one version is merged once more and all reads are repeated. Half of the histories grow the '
         'frame beyond 16 rows (where pandas switches sort algorithm). Compared in Coq with M_bitemp: every read (dates in order, values, NaN) '
         'and the complete store (date, stamp, value rows in frame order). The oracle recomputes each read from the property text by a plain '
@@ -37,8 +37,16 @@ S0 = datetime.datetime(2021, 1, 1)
 H12 = datetime.timedelta(hours=12)
 DAY = datetime.timedelta(days=1)
 
-def stamp_dt(s): return S0 + DAY * s
-def asof_dt(t2): return None if t2 is None else S0 + H12 * t2
+# 'cal' (optional): day offsets from 2021-01-01 of the five stamps, increasing; default consecutive days in 2021.  The property
+# does not tie stamps to the wall clock: calendars with stamps in 2100-2105 (after the machine's "now") are generated too.
+DEFAULT_CAL = [0, 1, 2, 3, 4]
+def stamp_dt(s, cal=DEFAULT_CAL): return S0 + DAY * cal[s]
+def asof_dt(t2, cal=DEFAULT_CAL):
+    """read time in half-steps: 2s = on stamp s, 2s+1 = 12h after stamp s (before stamp s+1), negative = before every stamp"""
+    if t2 is None: return None
+    if t2 < 0: return S0 + DAY * cal[0] + H12 * t2
+    if t2 > 9: return S0 + DAY * cal[4] + H12 * (t2 - 8)
+    return S0 + DAY * cal[t2 // 2] + H12 * (t2 % 2)
 
 # ---------------- Coq side
 def coq_runner(case):
@@ -75,7 +83,7 @@ def _obs_read(r):
     assert isinstance(r, pd.Series), type(r)
     return [[(t - D0).days, _val(x)] for t, x in zip(r.index, r.values)]
 
-def _obs_store(st):
+def _obs_store(st, cal=DEFAULT_CAL):
     if st is None:
         return []
     cols = [c for c in st.columns if c != 'updated']
@@ -83,7 +91,9 @@ def _obs_store(st):
     out = []
     for t, u, x in zip(st.index, st['updated'], st[cols[0]].values):
         du = u - S0
-        out.append([(t - D0).days, du.days * 2 + du.seconds // 43200, _val(x)])
+        # stamp back to its index (x2, the model's time axis); a stamp that is none of the published ones is shown as -7
+        idx = 2 * cal.index(du.days) if (du.seconds == 0 and du.microseconds == 0 and du.days in cal) else -7
+        out.append([(t - D0).days, idx, _val(x)])
     return out
 
 def expected(hist, t2, what):
@@ -108,20 +118,20 @@ def _as_dict(obs):
     return {d: (None if v == 'NaN' else v) for d, v in obs}
 
 def impl(case):
-    hist = case['hist']
+    hist = case['hist']; cal = case.get('cal', DEFAULT_CAL)
     ordered = all(hist[i][0] <= hist[i + 1][0] for i in range(len(hist) - 1))
     try:
         store = None
         for s, rows in hist:
-            store = bi_merge(store, Bi(_series(rows), stamp_dt(s)))
-        reads = [_obs_read(bi_read(store, asof_dt(t), w)) for t, w in case['reads']]
-        st_obs = _obs_store(store)
+            store = bi_merge(store, Bi(_series(rows), stamp_dt(s, cal)))
+        reads = [_obs_read(bi_read(store, asof_dt(t, cal), w)) for t, w in case['reads']]
+        st_obs = _obs_store(store, cal)
         k = case.get('again')
         reads2 = []
         if k is not None:
             s, rows = hist[k]
-            store2 = bi_merge(store, Bi(_series(rows), stamp_dt(s)))
-            reads2 = [_obs_read(bi_read(store2, asof_dt(t), w)) for t, w in case['reads']]
+            store2 = bi_merge(store, Bi(_series(rows), stamp_dt(s, cal)))
+            reads2 = [_obs_read(bi_read(store2, asof_dt(t, cal), w)) for t, w in case['reads']]
     except Exception as e:
         n = type(e).__name__
         return {'status': n, 'obs': ['ERR', n], 'viol': 'bi_merge / bi_read raised %s: %s' % (n, str(e)[:200])}
@@ -156,11 +166,15 @@ def nontrivial(case, result):
 
 def shape(case):
     n = sum(len(rows) for _, rows in case['hist'])
+    cal = case.get('cal', DEFAULT_CAL)
+    era = 'past' if cal[-1] < FUTURE else 'future' if cal[0] >= FUTURE else 'past+future'
     h = case['hist']
     ordered = all(h[i][0] <= h[i + 1][0] for i in range(len(h) - 1))
-    return '%s:v%d:%s%s' % ('ordered' if ordered else 'unordered', len(h), 'rows>16' if n > 16 else 'rows<=16', ':again' if case.get('again') is not None else '')
+    return '%s:%s:v%d:%s%s' % (era, 'ordered' if ordered else 'unordered', len(h), 'rows>16' if n > 16 else 'rows<=16', ':again' if case.get('again') is not None else '')
 
 # ---------------- generation
+FUTURE = 28854          # 2100-01-01 in days from 2021-01-01
+
 def all_reads(rng, stamps, extra_what=False):
     ts = [None, -1] + [2 * s for s in range(5)] + [2 * s + 1 for s in range(5)] + [40]
     reads = [[t, w] for t in ts for w in (-1, 0)]
@@ -202,7 +216,14 @@ def gen_cases(rng, tier):
         again = rng.randrange(len(hist)) if rng.random() < 0.5 else None
         if again is not None and rng.random() < 0.5:
             again = len(hist) - 1
-        cases.append({'hist': hist, 'reads': all_reads(rng, None, extra_what=rng.random() < 0.3), 'again': again})
+        case = {'hist': hist, 'reads': all_reads(rng, None, extra_what=rng.random() < 0.3), 'again': again}
+        r2 = rng.random()
+        if r2 < 0.2:       # every stamp after the machine clock (years 2100-2105)
+            case['cal'] = sorted(rng.sample(range(FUTURE, FUTURE + 2000), 5))
+        elif r2 < 0.4:     # past and future stamps mixed
+            k = rng.randrange(1, 5)
+            case['cal'] = sorted(rng.sample(range(0, 400), k)) + sorted(rng.sample(range(FUTURE, FUTURE + 2000), 5 - k))
+        cases.append(case)
     return cases
 
 def shrink(case):
